@@ -20,7 +20,10 @@ Pattern(m, i) == CASE m = 1 -> (IF i % 2 = 0 THEN a ELSE b)
                    [] m = 4 -> G3[((i \div 5) % 3) + 1]
                    [] m = 5 -> (IF i % 4 = 0 THEN MkList(<<a, b>>) ELSE IF i % 4 = 1 THEN MkList(<<a>>) ELSE C("f", <<a>>))
 LongLists == { [i \in 1..n |-> Pattern(m, i)] : n \in {13, 16, 33}, m \in 1..5 }
-Init == l \in UNION { [1..k -> Elems] : k \in 0..NL } \cup LongLists /\ done = FALSE
+\* integers near the 64-bit limits (7003 stands for the greatest, -7003 for the least: the replayer maps them, keeping the order)
+WideElems == { I(-7003), I(-7002), I(-1), I(1), Fl(2), I(7002), I(7003) }
+WideLists == UNION { [1..k -> WideElems] : k \in 2..3 }
+Init == l \in UNION { [1..k -> Elems] : k \in 0..NL } \cup LongLists \cup WideLists /\ done = FALSE
 Next == ~done /\ done' = TRUE /\ UNCHANGED l
 Spec == Init /\ [][Next]_<<l, done>>
 Dep == \E i, j \in 1..Len(l) : i < j /\ DepL(<< <<l[i], l[j]>> >>)
